@@ -232,6 +232,28 @@ pub fn gen_json(seed: u64, n_valid: u64, out: &crate::gens::Sink) {
             out.push(format!("json.rt {ty} {v2}"));
         }
     }
+    // an order array in which one id occurs twice (an element repeated at the end / at the front, the array doubled):
+    // every element decodes; the level is built by pushing them in turn
+    for ty in ["snapj", "leveldata"] {
+        for k in 0..45u64 {
+            let v = rjvalue(&mut r, ty);
+            let Some(text) = enc_by_type(ty, &v) else { continue };
+            if text.len() > 6000 { continue; }
+            let Ok(mut doc) = serde_json::from_str::<serde_json::Value>(&text) else { continue };
+            let Some(arr) = doc.get_mut("orders").and_then(|a| a.as_array_mut()) else { continue };
+            if arr.is_empty() { continue; }
+            let i = r.below(arr.len() as u64) as usize;
+            let e = arr[i].clone();
+            match k % 3 {
+                0 => arr.push(e),
+                1 => arr.insert(0, e),
+                _ => { let c = arr.clone(); arr.extend(c); }
+            }
+            out.push(format!("case {case}"));
+            case += 1;
+            out.push(format!("json.dec {ty} {}", crate::codec::hex(&doc.to_string())));
+        }
+    }
     // values with very many elements (past 10 000 and past 65 536), one size per kind and run
     for kind in ["snap-json", "pkg-json", "level-json", "queue-json", "mr-json"] {
         out.push(format!("case {case}"));
